@@ -403,7 +403,10 @@ def call_builtin(I, st, name, args, kwargs, node):
     if name == "callable":
         return isinstance(args[0], (FuncVal, BoundMethod, ClassVal))
     if name == "type":
-        return I.ctx.type_of(I, st, args[0], node)
+        a0 = args[0]
+        if isinstance(a0, Ref) and isinstance(st.obj(a0), RecObj) and st.obj(a0).pyclass is not None:
+            return ClassVal(st.obj(a0).cls, st.obj(a0).pyclass)
+        return I.ctx.type_of(I, st, a0, node)
     if name == "hasattr":
         return py_hasattr(I, st, args[0], args[1], node)
     if name == "getattr":
